@@ -193,6 +193,12 @@ class Harness:
             if not bool(cond):
                 raise ReplayMismatch("assumption false on concrete input")
 
+    def ongrid_mode(self, digits=6):
+        """ONGRID: all inputs are multiples of 10**-digits and the grid is closed under + and -, so rounding to
+        `digits` or more places is the identity on every value the code rounds (assumption, stated in the evidence)."""
+        if self.symbolic:
+            self.ctx.ongrid_digits = digits
+
     def exclude_known(self, finding_id, cond):
         """Leave a recorded finding's region out of this obligation (only while it is listed as open)."""
         if finding_id in self.known_open and not self.ignore_exclusions:
@@ -224,7 +230,9 @@ class Harness:
         s = z3.Solver()
         s.set("timeout", c.timeout_ms)
         for f in c.solver.assertions():
-            s.add(z3.substitute(f, *subs))
+            g = z3.substitute(f, *subs)
+            if _is_linear(g):      # hypotheses that stay non-linear are dropped (sound: fewer hypotheses)
+                s.add(g)
         s.add(z3.substitute(z3.Not(goal), *subs))
         t0 = time.time()
         r = s.check()
@@ -350,6 +358,34 @@ class Harness:
         if self.symbolic:
             return self.ctx.fresh_real(base)
         raise ReplayMismatch("havoc value has no concrete counterpart")
+
+
+def _is_linear(e, _cache=None):
+    """No product of two non-numeral terms, no division by a non-numeral, no uninterpreted application of such."""
+    if _cache is None:
+        _cache = {}
+    k = e.get_id()
+    if k in _cache:
+        return _cache[k]
+    ok = True
+    if z3.is_app(e):
+        kind = e.decl().kind()
+        ch = e.children()
+        if kind == z3.Z3_OP_MUL:
+            if sum(0 if z3.is_rational_value(c) or z3.is_int_value(c) else 1 for c in ch) > 1:
+                ok = False
+        elif kind in (z3.Z3_OP_DIV, z3.Z3_OP_IDIV):
+            if not (z3.is_rational_value(ch[1]) or z3.is_int_value(ch[1])):
+                ok = False
+        elif kind == z3.Z3_OP_POWER:
+            ok = False
+        if ok:
+            for c in ch:
+                if not _is_linear(c, _cache):
+                    ok = False
+                    break
+    _cache[k] = ok
+    return ok
 
 
 def _second_opinion(c, goal):
@@ -568,7 +604,8 @@ def replay_concrete(ob: Obligation, model, known_open=(), tier="quick", ignore_e
 def run_obligation(ob: Obligation, known=(), tier="quick"):
     """Full treatment of one obligation.  Returns a JSON-able result dict."""
     t0 = time.time()
-    known_here = [k for k in known if k.get("obligation") == ob.name and k.get("status", "open") == "open"]
+    base = ob.name.split("[")[0]
+    known_here = [k for k in known if k.get("obligation", "").split("[")[0] == base and k.get("status", "open") == "open"]
     known_open = [k["id"] for k in known_here]
     res = {
         "obligation": ob.name, "kind": ob.kind, "bound": ob.bound, "doc": ob.doc,
